@@ -106,6 +106,8 @@ func hasPlainField(s *gen.TypeSpec) bool {
 	return false
 }
 
+var _ = byValueMarshaler
+
 // byValueMarshaler: the type is, or contains by value (through struct fields and array elements),
 // a type implementing Marshaler/TextMarshaler (incl. RawMessage and time.Time).
 func byValueMarshaler(e *gen.TypeSpec) bool {
@@ -129,12 +131,7 @@ func ptrPtrBad(s *gen.TypeSpec) bool {
 	if s.K != "ptr" || s.Elem.K != "ptr" {
 		return false
 	}
-	return true // every pointer-to-pointer chain (see the finding text); the narrower rule below is kept for reference
-	e := s.Elem.Elem
-	for e.K == "ptr" {
-		e = e.Elem
-	}
-	return direct(e) || byValueMarshaler(e)
+	return true // every pointer-to-pointer chain (see the finding text)
 }
 
 var marshalerLeaves = []string{"ValMJ", "PtrMJ", "ValMT", "PtrMT", "IntMJ", "StrMT", "SliceMJ", "MapMJ", "BoolMT", "RoundMJ", "KeyMT", "IntKeyMT"}
